@@ -177,12 +177,12 @@ class Rule(object):
         ).check_validity_of(
             "scheme", "host", "path"
         )
-        uri = uri_reference(val)
         try:
+            uri = uri_reference(val)
             validator.validate(uri)
             # an authority such as ":80" or "user@" yields an empty, not an absent, host
             is_valid = bool(uri.host)
-        except (InvalidComponentsError, MissingComponentError, UnpermittedComponentError) as ex:
+        except (InvalidComponentsError, MissingComponentError, UnpermittedComponentError, UnicodeError) as ex:
             logger.debug(ex)
         return is_valid
 
